@@ -215,6 +215,7 @@ def run(ctx, rep):
     fold_width(F, rep)
     literal_kinds(F, rep)
     only_table_operators_are_folded(F, rep)
+    short_circuit_is_respected(F, rep)
 
 
 def _leaves(fn, local, through, depth=0, seen=None):
@@ -248,6 +249,39 @@ def _helper_returns_evaluations(F, call, through):
         return False
     lv = _leaves(g, 0, through)
     return bool(lv) and all(x[0] == "call" and x[1].endswith("::try_constexpr_eval") for x in lv)
+
+
+def short_circuit_is_respected(F, rep, rule="C06.short-circuit"):
+    """`false && e` and `true || e` do not evaluate e at run time; a literal expression of that form is not failing, whatever e would do.  The folder
+    never folds `&&` / `||` to a value, but it folds their operands, and an error while folding an operand is a rejection of the whole expression
+    (`attempting to evaluate this expression at compile time resulted in an error`).  So in the BinOp arm the right operand is not folded
+    unconditionally after the left one: some path from the left operand's result reaches a non-error answer without folding the right operand.
+    (`v or e`, whose fallback is a `value` node folded where it is parsed, is the same question for NilEval: known finding.)"""
+    ent = [f for f in F.all_fns() if f.path.endswith("::try_constexpr_eval") and "math_expr::Expr" in f.path and "CompileTimeEvaluate" in f.path]
+    if len(ent) != 1:
+        raise AnchorMissing("<Expr as CompileTimeEvaluate>::try_constexpr_eval")
+    g = ent[0]
+
+    def operand(c, variant, field):
+        l = op_local(c.args[0]) if c.args else None
+        return l is not None and any(len(fs) >= 2 and fs[0] == "@" + variant and fs[1] == field for (_, fs) in rules.trace_paths(g, l))
+    rec = [c for c in g.calls() if c.callee().endswith("::try_constexpr_eval")]
+    lhs = [c for c in rec if operand(c, "BinOp", "lhs")]
+    rhs = [c for c in rec if operand(c, "BinOp", "rhs")]
+    if len(lhs) != 1 or len(rhs) != 1:
+        raise AnchorMissing("the folds of BinOp.lhs / BinOp.rhs in Expr::try_constexpr_eval (%d / %d)" % (len(lhs), len(rhs)))
+    okr = set(rules.ok_return_blocks(g))
+    free = g.reachable(lhs[0].target, removed_blocks={rhs[0].bb}) & okr if lhs[0].target is not None else set()
+    rep.ob(rule, "`a && b` / `a || b`: the right operand is folded only when the left one does not decide", "ok" if free else "violated",
+           "" if free else "the fold of BinOp.rhs follows the fold of BinOp.lhs on every path: `print false && (1 / 0 == 1)` is rejected at compile time, "
+           "while `f = false; z = 0; print f && (1 / z == 1)` prints false", rhs[0].span, fn=g.path, key=rule + "|binop")
+    # `v or e`: the fallback is folded where it is parsed (Parser::value folds every value node), before anything knows that it stands behind `or`
+    pv = [f for f in F.crates["compiler"].fns if f.path.endswith("<impl compiler::parser::Parser>::value") and "ast::value" in f.path and f.kind != "Closure"]
+    eager = bool(pv) and any(c.callee().endswith("::try_constexpr_eval") for c in pv[0].calls())
+    fb = [c for c in rec if operand(c, "NilEval", "fallback")]
+    rep.ob(rule, "`v or e`: the fallback is folded only when v is nil", "violated" if eager else ("ok" if fb else "undecided"),
+           "Parser::value folds every `value` node when it is parsed, the fallback of `or` included: `print 5 or (1 / 0)` is rejected at compile time, "
+           "while `five = 5; z = 0; print five or (1 / z)` prints 5" if eager else "", (pv[0].span if pv else g.span), fn=(pv[0].path if pv else g.path), key=rule + "|or-fallback")
 
 
 def only_table_operators_are_folded(F, rep, rule="C06.fold-entry"):
